@@ -1454,6 +1454,19 @@ int32_t tls13ParseServerHello(ssl_t *ssl,
            SSL_NO_TLS_1_3 to fall back to the <1.3 decode
            code path. */
         psTraceInfo("Unable to negotiate TLS 1.3, trying <1.3\n");
+        if (rc == SSL_ENCODE_RESPONSE && ssl->tls13IncorrectDheKeyShare)
+        {
+            /* HelloRetryRequest: the transcript is about to be replaced by
+               message_hash(ClientHello1) computed with the hash of the
+               suite the server selected (RFC 8446, 4.4.1), so the suite
+               must be known before we return. */
+            if ((ssl->cipher = sslGetCipherSpec(ssl, cipher)) == NULL)
+            {
+                ssl->err = SSL_ALERT_ILLEGAL_PARAMETER;
+                psTraceIntInfo("Can't support requested cipher: %d\n", cipher);
+                return MATRIXSSL_ERROR;
+            }
+        }
         return rc;
     }
 
